@@ -1,0 +1,90 @@
+//! Verification hooks, compiled only with the `verif-hooks` cargo feature.
+//!
+//! Hooks only record what the visitor did into a thread-local sink; they never
+//! change control flow or output. A harness calls [`take`] after a run.
+
+use std::cell::RefCell;
+
+const MAX_EVENTS: usize = 512;
+
+#[derive(Clone, Debug, Default)]
+pub struct Snapshot {
+    /// bounded, ordered list of low-frequency events (drains, iife takes, module end)
+    pub events: Vec<String>,
+    pub dropped_events: usize,
+
+    pub slot_push: usize,
+    pub slot_pop: usize,
+    pub slot_fill: usize,
+    pub slot_underflow: usize,
+    pub slot_max_depth: usize,
+
+    pub resolve_calls: usize,
+    pub resolve_depth: usize,
+    pub resolve_max_depth: usize,
+    pub resolve_by_fn: [usize; 4],
+}
+
+thread_local! {
+    static SINK: RefCell<Snapshot> = RefCell::new(Snapshot::default());
+}
+
+pub fn take() -> Snapshot {
+    SINK.with(|sink| std::mem::take(&mut *sink.borrow_mut()))
+}
+
+pub(crate) fn event(text: String) {
+    SINK.with(|sink| {
+        let mut sink = sink.borrow_mut();
+        if sink.events.len() < MAX_EVENTS {
+            sink.events.push(text);
+        } else {
+            sink.dropped_events += 1;
+        }
+    })
+}
+
+pub(crate) fn slot_push(depth_after: usize) {
+    SINK.with(|sink| {
+        let mut sink = sink.borrow_mut();
+        sink.slot_push += 1;
+        sink.slot_max_depth = sink.slot_max_depth.max(depth_after);
+    })
+}
+
+pub(crate) fn slot_pop(depth_before: usize) {
+    SINK.with(|sink| {
+        let mut sink = sink.borrow_mut();
+        if depth_before == 0 {
+            sink.slot_underflow += 1;
+        } else {
+            sink.slot_pop += 1;
+        }
+    })
+}
+
+pub(crate) fn slot_fill(_depth: usize) {
+    SINK.with(|sink| sink.borrow_mut().slot_fill += 1)
+}
+
+pub(crate) struct ResolveGuard;
+
+pub(crate) fn resolve_enter(which: usize) -> ResolveGuard {
+    SINK.with(|sink| {
+        let mut sink = sink.borrow_mut();
+        sink.resolve_calls += 1;
+        sink.resolve_by_fn[which] += 1;
+        sink.resolve_depth += 1;
+        sink.resolve_max_depth = sink.resolve_max_depth.max(sink.resolve_depth);
+    });
+    ResolveGuard
+}
+
+impl Drop for ResolveGuard {
+    fn drop(&mut self) {
+        SINK.with(|sink| {
+            let mut sink = sink.borrow_mut();
+            sink.resolve_depth = sink.resolve_depth.saturating_sub(1);
+        })
+    }
+}
